@@ -100,6 +100,17 @@ def make_cases(ctx, langs):
                     cases.append({"clause": "locale-order", "order": "", "f": fields(e2, y, m, d, rng.random() < 0.5),
                                   "sep": rng.choice(SEPS), "tm": None, "kw": {kind: [name]}, "explicit": False,
                                   "plo": plo, "locorder": lo})
+    # "poison" calls interleaved with the cases: parses that FAIL under a locale with its own order and default
+    # settings.  They are not judged; a tree that lets such a call leak state (DATE_ORDER left behind on the
+    # failure path) shows it in the cases that follow in the same worker process.
+    poison = [{"clause": "poison", "order": "", "f": [[2, 12], [2, 31], [4, 2012]], "sep": "/", "tm": None, "kw": {"languages": [L]},
+               "explicit": False, "plo": True, "locorder": "", "poison": True} for L in ("fr", "de", "ru", "ja", "hu", "fr", "es", "it")]
+    mixed = []
+    for i, c in enumerate(cases):
+        if i % 96 == 0:
+            mixed.extend(dict(p) for p in poison * 2)
+        mixed.append(c)
+    cases = mixed
     for i, c in enumerate(cases):
         st = {"RELATIVE_BASE": BASE}
         if c["explicit"]:
@@ -107,7 +118,7 @@ def make_cases(ctx, langs):
         if not c["plo"]:
             st["PREFER_LOCALE_DATE_ORDER"] = False
         c["s"] = render(c["f"], c["sep"], c["tm"])
-        c["settings"] = st
+        c["settings"] = st if not c.get("poison") else None
         c["api"] = "ddp"
         c["probe"] = True
     return cases
@@ -136,6 +147,8 @@ def run(ctx):
     records = []
     nabs = 0
     for i, (c, r) in enumerate(zip(cases, results)):
+        if c.get("poison"):
+            continue
         records.append({"kind": "c07", "tid": i, "explicit": c["explicit"], "given": c["order"] or "MDY",
                         "plo": c["plo"], "locorder": c["locorder"], "f": c["f"], "sep": c["sep"],
                         "tm": c["tm"] or [0, 0, 0], "out": r["out"], "period": r["period"], "exc": r["exc"]})
@@ -149,7 +162,7 @@ def run(ctx):
     unbound = sorted({u for r in results for u in r.get("unbound", [])})
     if unbound:
         ctx.notes.append("probe targets not found (refinement skipped): %s" % unbound)
-    nontrivial = len({c["s"] + repr(sorted(c["settings"].items())) + repr(c["kw"]) for c, r in zip(cases, results) if r["out"]})
+    nontrivial = len({c["s"] + repr(sorted((c["settings"] or {}).items())) + repr(c["kw"]) for c, r in zip(cases, results) if r["out"]})
     cov = {
         "states": mc.distinct, "transitions": mc.generated,
         "traces_validated_against_impl": len(cases) - skipped_prop,
@@ -158,7 +171,7 @@ def run(ctx):
         "rule": "case = (order, three numeric fields, separator, optional time, language/locale); non-trivial = distinct call whose result is a datetime",
         "exhaustive": False,
         "tlc_constants": {"Years": years, "Orders": ORDERS},
-        "clauses": {k: sum(1 for c in cases if c["clause"] == k) for k in ("explicit", "explicit-x-locale", "locale-order")},
+        "clauses": {k: sum(1 for c in cases if c["clause"] == k) for k in ("explicit", "explicit-x-locale", "locale-order", "poison")},
         "locales_covered": len({repr(c["kw"]) for c in cases}),
         "samples": [dict(describe(c), expected_by_spec="Reading(order, fields)", observed=r["out"]) for c, r in list(zip(cases, results))[:: max(1, len(cases) // 6)]][:6],
     }
